@@ -58,4 +58,61 @@ theorem c4_changeover_mono (d d' dcrit : Rat) (hc : 0 < dcrit) (h : d ≤ d') : 
   changeover_mono pC4 ss_c4 c4_mono d d' dcrit hc h
 theorem c5_changeover_mono (d d' dcrit : Rat) (hc : 0 < dcrit) (h : d ≤ d') : LC5 d dcrit ≤ LC5 d' dcrit :=
   changeover_mono pC5 ss_c5 c5_mono d d' dcrit hc h
+
+/-! ### strict monotonicity inside the transition zone (no plateau between 0.1·dcrit and dcrit) -/
+def mR (y : ℝ) : ℝ := 10*y^3 - 15*y^4 + 6*y^5
+theorem m_cast (a : Rat) : ((pMercury a : Rat) : ℝ) = mR (a : ℝ) := by unfold pMercury mR; push_cast; ring
+theorem m_hasDeriv (x : ℝ) : HasDerivAt mR (30 * x^2 * (1-x)^2) x := by
+  have h := (((hasDerivAt_pow 3 x).const_mul 10).sub ((hasDerivAt_pow 4 x).const_mul 15)).add ((hasDerivAt_pow 5 x).const_mul 6)
+  have h2 : HasDerivAt _ (30 * x^2 * (1-x)^2) x := h.congr_deriv (by norm_num; ring)
+  exact h2
+
+theorem strict_of_deriv (f : ℝ → ℝ) (f' : ℝ → ℝ) (hd : ∀ x, HasDerivAt f (f' x) x) (hpos : ∀ x ∈ Set.Ioo (0:ℝ) 1, 0 < f' x) :
+    StrictMonoOn f (Set.Icc 0 1) := by
+  apply strictMonoOn_of_deriv_pos (convex_Icc 0 1)
+  · exact fun x _ => (hd x).continuousAt.continuousWithinAt
+  · intro x hx; rw [interior_Icc] at hx; rw [(hd x).deriv]; exact hpos x hx
+
+theorem mR_strict : StrictMonoOn mR (Set.Icc 0 1) :=
+  strict_of_deriv mR _ m_hasDeriv (fun x hx => by
+    have h0 : 0 < x := hx.1
+    have h1 : 0 < 1 - x := sub_pos.mpr hx.2
+    positivity)
+theorem c4R_strict : StrictMonoOn c4R (Set.Icc 0 1) :=
+  strict_of_deriv c4R _ c4_hasDeriv (fun x hx => by
+    have h0 : 0 < x := hx.1
+    have h1 : 0 < 1 - x := sub_pos.mpr hx.2
+    positivity)
+theorem c5R_strict : StrictMonoOn c5R (Set.Icc 0 1) :=
+  strict_of_deriv c5R _ c5_hasDeriv (fun x hx => by
+    have h0 : 0 < x := hx.1
+    have h1 : 0 < 1 - x := sub_pos.mpr hx.2
+    positivity)
+
+theorem strict_cast (p : Rat → Rat) (f : ℝ → ℝ) (hc : ∀ a : Rat, ((p a : Rat) : ℝ) = f (a : ℝ)) (hf : StrictMonoOn f (Set.Icc 0 1))
+    (a b : Rat) (h0 : 0 ≤ a) (hab : a < b) (h1 : b ≤ 1) : p a < p b := by
+  have ha : (a : ℝ) ∈ Set.Icc (0 : ℝ) 1 := ⟨by exact_mod_cast h0, by exact_mod_cast le_trans (le_of_lt hab) h1⟩
+  have hb : (b : ℝ) ∈ Set.Icc (0 : ℝ) 1 := ⟨by exact_mod_cast le_trans h0 (le_of_lt hab), by exact_mod_cast h1⟩
+  have := hf ha hb (by exact_mod_cast hab)
+  rw [← hc, ← hc] at this; exact_mod_cast this
+
+/-- inside the transition zone `dcrit/10 ≤ d < d' ≤ dcrit` every polynomial changeover function is strictly increasing -/
+theorem changeover_strict (p : Rat → Rat) (hm : ∀ a b, 0 ≤ a → a < b → b ≤ 1 → p a < p b)
+    (d d' dcrit : Rat) (hc : 0 < dcrit) (hlo : dcrit / 10 ≤ d) (h : d < d') (hhi : d' ≤ dcrit) :
+    changeover p d dcrit < changeover p d' dcrit := by
+  have h9 : (0 : Rat) < 9 / 10 * dcrit := by positivity
+  have hy : yOf d dcrit < yOf d' dcrit := by unfold yOf; exact div_lt_div_of_pos_right (by linarith) h9
+  have a0 : ¬ yOf d dcrit < 0 := fun hh => absurd ((y_nonneg_iff d dcrit hc).mp hh) (not_lt.mpr hlo)
+  have b1 : ¬ yOf d' dcrit > 1 := fun hh => absurd ((y_gt_one_iff d' dcrit hc).mp hh) (not_lt.mpr hhi)
+  have a1 : ¬ yOf d dcrit > 1 := fun hh => b1 (lt_trans hh hy)
+  have b0 : ¬ yOf d' dcrit < 0 := fun hh => a0 (lt_trans hy hh)
+  unfold changeover
+  simp only [a0, a1, b0, b1, if_false]
+  exact hm _ _ (le_of_not_gt a0) hy (le_of_not_gt b1)
+
+theorem all_strict (d d' dcrit : Rat) (hc : 0 < dcrit) (hlo : dcrit / 10 ≤ d) (h : d < d') (hhi : d' ≤ dcrit) :
+    Lmercury d dcrit < Lmercury d' dcrit ∧ LC4 d dcrit < LC4 d' dcrit ∧ LC5 d dcrit < LC5 d' dcrit :=
+  ⟨changeover_strict pMercury (strict_cast pMercury mR m_cast mR_strict) d d' dcrit hc hlo h hhi,
+   changeover_strict pC4 (strict_cast pC4 c4R c4_cast c4R_strict) d d' dcrit hc hlo h hhi,
+   changeover_strict pC5 (strict_cast pC5 c5R c5_cast c5R_strict) d d' dcrit hc hlo h hhi⟩
 end RV.C01.ChangeoverMono
